@@ -78,7 +78,7 @@ pub fn boundary_pool(full: bool) -> Vec<Value> {
         "2015-07-30T03:26:13Z", "ß", "\t x\n", "79228162514264337593543950336",
         "170141183460469231731687303715884105728", "-170141183460469231731687303715884105728",
         "170141183460469231731687303715884105727", "-170141183460469231731687303715884105729", "-9223372036854775808",
-        "9223372036854775808", "18446744073709551615", "-0x10", "0xff", "0b1", "1e3", "-1e3",
+        "9223372036854775808", "18446744073709551615", "-0x10", "0xff", "0b1", "1e3", "-1e3", "true", "false", "True", " true", "none", "[]",
     ];
     let more_s = [
         " 5", "5 ", "1_000", "0x5", "５", ".5", "5.", "Inf", "nan", "-", "+", "--5", "2015-07-30 03:26:13Z",
